@@ -131,7 +131,7 @@ Proof.
 Qed.
 
 (* below the warning line: exactly T *)
-Lemma twin_full tn td cf W M tokens : 0 <= W -> tokens < W -> allowed_twin tn td cf W M tokens = (tn, td).
+Lemma twin_full tn td cf W M tokens : 0 < W -> tokens < W -> allowed_twin tn td cf W M tokens = (tn, td).
 Proof. intros H0 H. unfold allowed_twin. destruct (Z.max 0 tokens >=? W) eqn:E; [lia|reflexivity]. Qed.
 
 (* more stored tokens, lower allowed rate *)
